@@ -8,6 +8,10 @@ P (kernels, real source):
     inconsistent combinations;
   * get_fresh_name: the returned name is not a name of the problem it was asked for (while-loop exit condition, any has_name);
     get_fresh_parameter_name: the returned name is not among the action's parameter names (loop invariant over the parameters).
+  * Grounder._compile (the whole function, grounded actions of any number, helper / Problem operations by contract): the caller-side
+    freshness obligation of the design -- at every `new_problem.add_action(new_action)` the action's name is not yet a name of the problem
+    being built (otherwise add_action raises UPProblemDefinitionError) -- via the loop invariant "the names defined so far"; the result is a
+    CompilerResult built by the real constructor (so it carries a back conversion).
 Everything else of each _compile is decided by the bounded layer below.
 
 See DESIGN.md section 7 (C08).  Bounded layer over the shared compiler harness rtc/compcheck.py:
@@ -139,8 +143,136 @@ class FreshParameterName(Unit):
                   z3.ForAll([j], z3.Implies(z3.And(0 <= j, j < ps.n), pn(z3.Select(ps.arr, j)) != to_z3(out[1], Str))))
 
 
-UNITS = [CompilerResultInvariant(), FreshName(), FreshParameterName()]
+# ----------------------------------------------------------------------------------------------- Grounder._compile
+import unified_planning.engines.compilers.grounder as _gr   # noqa: E402
+import functools as _ft                                     # noqa: E402
+from pyvc.values import Set, Tup, SSet, to_z3                # noqa: E402
+GProblem08 = Ref("GroundedInput08", _up.model.Problem, fields={"name": Str})
+Metric08 = Ref("Metric08")
+Metric08.observers["is_minimize_action_costs"] = ((), PBool)
+Metric08.pycls = object
+Metric08.isinstance_hook = lambda e, st, v, clss: True
+GProblem08.fields["quality_metrics"] = Seq(Metric08)
+OldAction08, Params08 = Ref("OldAction08"), Ref("GroundParams08")
+NewAction08 = Ref("NewAction08")
+NewAction08.null = z3.Const("NewAction08.None", NewAction08.z3sort())
+NewAction08.mutable["name"] = Str
+Helper08 = Ref("GrounderHelper08", fields={"simplifier": Ref("Simplifier08")})
+Params08.iter_items = Ref("FNode08")
+QNG = "unified_planning.engines.compilers.grounder.Grounder._compile"
+
+
+class NewProblem08:
+    """marker record for the problem being built (methods are placeholders, every call goes through its contract)"""
+    def clear_actions(self): pass                 # noqa: E704
+    def has_name(self, n): pass                   # noqa: E704
+    def add_action(self, a): pass                 # noqa: E704
+    def clear_quality_metrics(self): pass         # noqa: E704
+    def add_quality_metric(self, m): pass         # noqa: E704
+
+
+def _np_names(st, np):
+    return st.load(st.getfield(np, "_names"))
+
+
+class GrounderCompile(Unit):
+    prop = "C08"
+    name = "Grounder._compile"
+    doc = "every grounded action is added under a name that is fresh in the problem being built; the result carries a back conversion"
+    allowed_raises = ()
+
+    def target(self):
+        return _gr.Grounder._compile
+
+    def configure(self, eng):
+        def clone(eng_, st, selfv, args, kw):
+            names = eng_.fresh_of(st, Set(Str), "names_of_the_clone")
+            yield st, st.alloc(Rec(NewProblem08, {"_names": st.alloc(names, "set"), "name": None, "_added": st.alloc(SSet.empty(NewAction08), "set")}), "new_problem")
+        GProblem08.methods["clone"] = clone
+
+        def clear_actions(eng_, st, args, kw):
+            np = args[0]
+            old = _np_names(st, np)
+            new = eng_.fresh_of(st, Set(Str), "names_without_actions")
+            k = z3.Const(fresh_name("k"), Str.z3sort())
+            st.assume(z3.ForAll([k], z3.Implies(z3.Select(new.has, k), z3.Select(old.has, k))))     # removing the actions only removes names
+            st.store(st.getfield(np, "_names"), new)
+            yield st, None
+
+        def has_name(eng_, st, args, kw):
+            yield st, SBool(z3.Select(_np_names(st, args[0]).has, to_z3(args[1], Str)))
+
+        def add_action(eng_, st, args, kw):
+            np, a = args
+            nm = z3.Select(eng_.heap_field(st, NewAction08, "name"), a.z)
+            st.oblige("add_action: the action's name is not yet defined in the problem being built (else UPProblemDefinitionError)",
+                      z3.Not(z3.Select(_np_names(st, np).has, nm)))
+            st.store(st.getfield(np, "_names"), _np_names(st, np).add(Str.wrap(nm)))
+            loc = st.getfield(np, "_added")
+            st.store(loc, st.load(loc).add(a))
+            yield st, None
+        noop = lambda eng_, st, args, kw: iter([(st, None)])      # noqa: E731
+        eng.contracts[NewProblem08.clear_actions] = clear_actions
+        eng.contracts[NewProblem08.has_name] = has_name
+        eng.contracts[NewProblem08.add_action] = add_action
+        eng.contracts[NewProblem08.clear_quality_metrics] = noop
+        eng.contracts[NewProblem08.add_quality_metric] = noop
+        eng.contracts[_gr.GrounderHelper] = lambda eng_, st, args, kw: iter([(st, Helper08.fresh("grounder_helper"))])
+        Helper08.methods["get_grounded_actions"] = lambda eng_, st, selfv, args, kw: iter([(st, self._ga)])
+
+        def fresh_name_contract(eng_, st, args, kw):
+            np, base = args[0], args[1]
+            r = Str.fresh("fresh_name")
+            st.assume(z3.Not(z3.Select(_np_names(st, np).has, r.z)))      # proved for the real get_fresh_name in the unit above
+            yield st, r
+        eng.contracts[_gr.get_fresh_name] = fresh_name_contract
+        eng.contracts[_gr.ground_minimize_action_costs_metric] = lambda eng_, st, args, kw: iter([(st, Metric08.fresh("ground_metric"))])
+        eng.contracts[_ft.partial] = lambda eng_, st, args, kw: iter([(st, Callable08.fresh("partial"))])
+
+        def inv(L):
+            np = L.new_problem
+            added = L.st.load(L.st.getfield(np, "_added"))
+            seq, i = L._seq, zint(L._i)
+            j = z3.Int(fresh_name("j"))
+            third = lambda jj: B_third(seq, jj)      # noqa: E731
+            return [("every scanned grounded action that exists was added",
+                     z3.ForAll([j], z3.Implies(z3.And(0 <= j, j < i, third(j) != NewAction08.null), z3.Select(added.has, third(j)))))]
+        eng.loops[(QNG, 0)] = LoopSpec(inv, modifies=["old_action", "parameters", "new_action", "new_problem._names", "new_problem._added", "heap:NewAction08.name"],
+                                       opaque=["trace_back_map"], types={"new_problem._names": Set(Str), "new_problem._added": Set(NewAction08)})
+        eng.loops[(QNG, 1)] = LoopSpec(lambda L: [("metrics loop", z3.BoolVal(True))], modifies=["qm", "new_metric"], types={})
+
+    def setup(self, eng, st):
+        w = st.alloc(Rec(_gr.Grounder, {"_grounding_actions_map": None, "_prune_actions": True}), "grounder")
+        pr = GProblem08.fresh("problem")
+        self._ga = eng.fresh_of(st, Seq(Tup(OldAction08, Params08, NewAction08)), "grounded_actions")
+        return [w, pr, None], {}, dict(pr=pr)
+
+    def post(self, eng, ctx, st, out):
+        if out[0] != "return":
+            return
+        r = eng.deref(st, out[1])
+        ok = isinstance(r, Rec) and r.cls is _res.CompilerResult and r.fields.get("plan_back_conversion") is not None and r.fields.get("problem") is not None
+        st.oblige("a CompilerResult with the built problem and a plan back-conversion is returned", z3.BoolVal(bool(ok)))
+        if ok:
+            np = r.fields["problem"]
+            added = st.load(st.getfield(np, "_added"))
+            seq = self._ga
+            j = z3.Int(fresh_name("j"))
+            st.oblige("every grounded action the helper produced is in the compiled problem",
+                      z3.ForAll([j], z3.Implies(z3.And(0 <= j, j < seq.n, B_third(seq, j) != NewAction08.null), z3.Select(added.has, B_third(seq, j)))))
+
+
+def B_third(seq, j):
+    t = seq.te
+    t.z3sort()
+    return t._acc[2](z3.Select(seq.arr, j))
+
+
+UNITS = [CompilerResultInvariant(), FreshName(), FreshParameterName(), GrounderCompile()]
 LEVEL = "other"
 EXPLANATION = __doc__
 TRUSTED = ["the dataclass-generated __init__ stores its arguments field by field and then calls __post_init__ (pyvc models exactly that)",
-           "Problem.has_name is a pure observer", "string formatting of candidate names is abstract (any string)"]
+           "Problem.has_name is a pure observer", "string formatting of candidate names is abstract (any string)",
+           "Grounder._compile: GrounderHelper.get_grounded_actions yields any sequence of (action, parameters, grounded action or None); Problem.clone / "
+           "clear_actions / add_action by contract (add_action requires a name that is not yet defined -- the obligation proved at the call site); "
+           "the trace-back map and the ground metric are abstracted (not part of the well-formedness clause)"]
